@@ -245,6 +245,23 @@ pub fn boxed_boxed_case(max: usize) -> impl Fn(&mut Tape, &mut Case) -> CaseResu
         add.option_form("BoxedUint::checked_add", total("BoxedUint::checked_add", || Option::<BoxedUint>::from(CheckedAdd::checked_add(&a, &b)))?)?;
         sub.option_form("BoxedUint::checked_sub", total("BoxedUint::checked_sub", || Option::<BoxedUint>::from(CheckedSub::checked_sub(&a, &b)))?)?;
 
+        // ---- the SAME object as both operands (pointer-identical references, not an equal clone):
+        //      x + x + carry-in, x - x - borrow-in ----
+        {
+            let two_a = &ba + &ba + BigUint::from(cin);
+            let (v, k) = total("BoxedUint::adc(&x, &x) (same object)", || a.adc(&a, Limb(cin)))?;
+            veq!(bl(&v), limbs_of(&two_a, l), "BoxedUint::adc with the same object as both operands (carry-in {cin:#x}): value");
+            veq!(vec![k.0], limbs_of(&(&two_a >> (64 * l)), 1), "BoxedUint::adc with the same object as both operands (carry-in {cin:#x}): carry-out");
+            let (v, k) = total("BoxedUint::sbb(&x, &x) (same object)", || a.sbb(&a, Limb(bin)))?;
+            let want = if bin != 0 { vec![M; l] } else { vec![0; l] };
+            veq!(bl(&v), want, "BoxedUint::sbb with the same object as both operands (borrow-in {bin:#x}): value");
+            veq!(k.0, if bin != 0 { M } else { 0 }, "BoxedUint::sbb with the same object as both operands: borrow-out");
+            veq!(bl(&total("wrapping_add(&x, &x)", || a.wrapping_add(&a))?), limbs_of(&(&ba + &ba), l), "BoxedUint::wrapping_add with the same object as both operands");
+            veq!(bl(&total("&x + &x / &x - &x", || a.wrapping_sub(&a))?), vec![0u64; l], "BoxedUint::wrapping_sub with the same object as both operands");
+            let ck = total("checked_add(&x, &x)", || Option::<BoxedUint>::from(CheckedAdd::checked_add(&a, &a)))?;
+            veq!(ck.map(|v| bl(&v)), if (&ba + &ba).bits() <= 64 * l as u64 { Some(limbs_of(&(&ba + &ba), l)) } else { None }, "BoxedUint::checked_add with the same object as both operands");
+        }
+
         // ---- in-place carry forms ----
         addc.assign_carry_form(
             "BoxedUint::adc_assign(&BoxedUint)",
